@@ -854,6 +854,12 @@ func (fx *FnExec) evalIdent(name string, env *evalEnv) (cval, error) {
 	if v := fx.localByName(name, env.loop); v != nil {
 		return fx.cvalOf(fx.val(v)), nil
 	}
+	// in a loop clause a name that several variables share means the one visible at the loop head
+	if env.loop != nil {
+		if v := fx.localAt(name, env.loop); v != nil {
+			return fx.cvalOf(fx.val(v)), nil
+		}
+	}
 	return cval{}, fmt.Errorf("unknown name %q", name)
 }
 
